@@ -2,7 +2,8 @@
 Line-protocol driver for C05.
 request : trace <H|N|S> <nfiles> [c<k>|-] <layer>,<layer>,…
           layer = E (history entry with EmptyLayer)  |  L/<op>/<op>…  (one op per file)
-          op    = k (file untouched) | d (whiteout) | w<digits> (file rewritten with these packages, in this order)
+          op    = k (file untouched) | d (whiteout) | w<digits> (file rewritten with these packages, in this order;
+                  a digit d in 1..8 is the package p<(d-1)%4+1> at version (d-1)/4+1: ids d and d+4 share their name)
                 | s<digits> (location replaced by a symlink to a list with these packages)
           c<k>  = the context is cancelled once the trace has made k re-extractions (k ≥ 1); - or absent = never
           history mode: H = one history entry per layer (CreatedBy "cmd<i>"), N = no history, S = last entry dropped
@@ -37,7 +38,16 @@ def sortStr (xs : List String) : List String := isort (fun a b => decide (a < b)
 0 = var/lib/a/pkgs.list, 1 = opt/pkgs.list, 2 = pkgs.list, so by path: 1 < 2 < 0 -/
 def fileRank (f : Nat) : Nat := if f = 0 then 2 else if f = 1 then 0 else 1
 
-def pkgLt (a b : Nat × Pkg) : Bool := a.2 < b.2 || (a.2 = b.2 && fileRank a.1 < fileRank b.1)
+/-- a package id is a (name, version) pair with SHARED names: id d and id d+4 are name p<(d-1)%4+1> at
+versions 1 and 2 (purls that differ only in the version). The model's `Pkg` equality is purl equality. -/
+def pkgName (p : Pkg) : Nat := (p - 1) % 4
+def pkgVersion (p : Pkg) : Nat := (p - 1) / 4
+
+/-- `CmpPackages`: name, then version, then (same extractor) location -/
+def pkgLt (a b : Nat × Pkg) : Bool :=
+  let ka := (pkgName a.2, pkgVersion a.2, fileRank a.1)
+  let kb := (pkgName b.2, pkgVersion b.2, fileRank b.1)
+  ka.1 < kb.1 || (ka.1 = kb.1 && (ka.2.1 < kb.2.1 || (ka.2.1 = kb.2.1 && ka.2.2 < kb.2.2)))
 
 def parseCancel (s : String) : Option (Option Nat) :=
   if s = "-" then some none
